@@ -369,8 +369,10 @@ def login_reply_stage(rep, ctx):
         g.set_net(ip, nb)
         g.qtype = rng.choice(g.QTYPES)
         logins = {}
+        # every other server sees all its clients through one relay / NAT: the same source address, different ports
+        same_src = (len(hs) % 2 == 1)
         for k in range(g.nusers):
-            s = srvlib.Session(g, (4, bytes([192, 0, 2, 20 + k]), 5000 + k))
+            s = srvlib.Session(g, (4, bytes([192, 0, 2, 20 + (0 if same_src else k)]), 5000 + k))
             g.version(s)
             g.login(s)
             logins[len(g.events) - 1] = '2:%s:%d' % (s.addr[1].hex(), s.addr[2])
@@ -442,7 +444,7 @@ def login_reply_stage(rep, ctx):
     rep.cov['login_replies'] = dict(servers=len(hs), replies_checked=nrep)
     rep.cov['evaluations'] = rep.cov.get('evaluations', 0) + sum(h.count(' ; ') for h in hs)
     rep.cov['rule'] += ('. Login-reply stage: %d servers (addresses with 7..15 characters in dotted form x netmasks 8..30), every slot taken and logged '
-                        'in through the real handlers: the client address in each reply is a distinct host address of the subnet, not the server\'s' % len(hs))
+                        'in through the real handlers (for every other server all clients arrive from one source address, as through a relay): the client address in each reply is a distinct host address of the subnet, not the server\'s' % len(hs))
 
 
 def startup_stage(rep, ctx):
